@@ -47,7 +47,82 @@ type domain struct {
 	fillers []string
 	// opener/closer pairs that make the whole padding one token
 	wraps [][2]string
+	// countUnits / countFrames: one-token units repeated an exact number of
+	// times (around 2^8 and 2^16) between a frame's two halves
+	countUnits  []string
+	countFrames [][2]string
+	// aliasCases: inputs in which one letter of a table word is written as a
+	// non-ASCII character that some case mapping relates to it
+	aliasCases func() []string
+	// seamPairs / seamPads: two features a whole number of 64 KiB blocks apart
+	seamPairs [][2]string
+	seamPads  []string
+	// extraCases: further fixed case lists by generator name (planned in ranges)
+	extraCases map[string]func() []string
 }
+
+// foldAliases: characters that a Unicode case mapping or case-insensitive
+// comparison relates to an ASCII letter (KELVIN SIGN, LONG S, dotless and
+// dotted I) and the fullwidth form that compatibility normalisation maps to it.
+func foldAliases(c byte) []string {
+	var out []string
+	switch c | 0x20 {
+	case 'k':
+		out = append(out, "\u212a")
+	case 's':
+		out = append(out, "\u017f")
+	case 'i':
+		out = append(out, "\u0131", "\u0130")
+	case 'a':
+		out = append(out, "\u212b")
+	}
+	return out
+}
+
+// aliasSpellings: w with one letter replaced by each of its aliases, and w
+// with its first letter in fullwidth form.
+func aliasSpellings(w string) []string {
+	var out []string
+	for i := 0; i < len(w); i++ {
+		for _, a := range foldAliases(w[i]) {
+			out = append(out, w[:i]+a+w[i+1:])
+		}
+	}
+	if len(w) > 0 && (w[0]|0x20) >= 'a' && (w[0]|0x20) <= 'z' {
+		out = append(out, string(rune(0xff00+int(w[0])-0x20))+w[1:])
+	}
+	return out
+}
+
+func giantSizes(all bool) []int {
+	if all {
+		return []int{100<<20 + 1, 128<<20 + 1, 200<<20 + 1, 256<<20 + 1}
+	}
+	return []int{100<<20 + 1, 128<<20 + 1}
+}
+
+// seamKs: distances in 64 KiB blocks (all of 1..64 for the thorough tier)
+func seamKs(all bool) []int {
+	if !all {
+		return []int{1, 2, 3, 4, 6, 8, 12, 16, 24, 32}
+	}
+	var out []int
+	for k := 1; k <= 64; k++ {
+		out = append(out, k)
+	}
+	return out
+}
+
+// counts around the limits of 8- and 16-bit counters
+var wrapCounts = func() []int {
+	var out []int
+	for _, c := range []int{256, 65536} {
+		for d := -6; d <= 4; d++ {
+			out = append(out, c+d)
+		}
+	}
+	return out
+}()
 
 type scaleFam struct{ prefix, unit, suffix string }
 
@@ -81,6 +156,25 @@ func planMix(d *domain, mixes []Mix) []core.Unit {
 			us = append(us, gen.RangeUnits("utf8tpl", uint64(len(utf8Chars())), 96, "")...)
 		case "nulpad":
 			us = append(us, gen.RangeUnits("nulpad", 12*32*4, 384, "")...)
+		case "attrvals", "qualified", "gluelit":
+			if f := d.extraCases[m.Gen]; f != nil {
+				us = append(us, gen.RangeUnits(m.Gen, uint64(len(f())), 10000, "")...)
+			}
+		case "foldalias":
+			if d.aliasCases != nil {
+				us = append(us, gen.RangeUnits("foldalias", uint64(len(d.aliasCases())), 20000, "")...)
+			}
+		case "giant":
+			for i := range giantSizes(m.N == 1) {
+				us = append(us, core.Unit{Gen: "giant", Lo: uint64(i), Hi: uint64(i + 1), Arg: strconv.FormatUint(m.N, 10)})
+			}
+		case "seam":
+			ks := seamKs(m.N == 1)
+			for i := 0; i < len(d.seamPairs)*len(d.seamPads)*len(ks); i++ {
+				us = append(us, core.Unit{Gen: "seam", Lo: uint64(i), Hi: uint64(i + 1), Arg: strconv.FormatUint(m.N, 10)})
+			}
+		case "wrapcount":
+			us = append(us, gen.RangeUnits("wrapcount", uint64(len(d.countUnits)*len(d.countFrames)*len(wrapCounts)), 24, "")...)
 		case "scale1":
 			// the families without the prefix cross product (d.scaleBase)
 			for i := range d.scaleBase {
@@ -278,6 +372,48 @@ func genMix(d *domain, w *core.Worker, u core.Unit, emit func(core.Case)) bool {
 			default:
 				emit(core.Case{In: z[:k/2] + w + z[k/2:]})
 			}
+		}
+	case "attrvals", "qualified", "gluelit":
+		cs := d.extraCases[u.Gen]()
+		for i := u.Lo; i < u.Hi && i < uint64(len(cs)); i++ {
+			emit(core.Case{In: cs[i]})
+		}
+	case "foldalias":
+		cs := d.aliasCases()
+		for i := u.Lo; i < u.Hi && i < uint64(len(cs)); i++ {
+			emit(core.Case{In: cs[i]})
+		}
+	case "giant":
+		// bodies beyond 100 MiB: one plain word, and plain text with an attack at the very end
+		n := giantSizes(u.Arg == "1")[u.Lo]
+		pr := d.seamPairs[2]
+		if u.Lo%2 == 0 {
+			pr = [2]string{"", ""}
+		}
+		emit(core.Case{In: gen.Scale(pr[0], d.seamPads[0], pr[1], n), Desc: gen.ScaleDesc(pr[0], d.seamPads[0], pr[1], n), Kind: "seam"})
+	case "seam":
+		// the second feature starts exactly at, one byte before and one byte
+		// after a multiple of 64 KiB behind the start of the input (block-wise
+		// scanning, "last N KiB only" shortcuts, 16-bit offsets)
+		ks := seamKs(u.Arg == "1")
+		i := int(u.Lo)
+		k := ks[i%len(ks)]
+		pad := d.seamPads[(i/len(ks))%len(d.seamPads)]
+		pr := d.seamPairs[i/len(ks)/len(d.seamPads)]
+		for dd := -1; dd <= 1; dd++ {
+			n := k<<16 + dd - len(pr[0])
+			n -= n % len(pad)
+			emit(core.Case{In: gen.Scale(pr[0], pad, pr[1], n), Desc: gen.ScaleDesc(pr[0], pad, pr[1], n), Kind: "seam"})
+		}
+	case "wrapcount":
+		// a statistic kept in a narrower integer than the number of tokens,
+		// comments or attributes an input can hold wraps here
+		for i := u.Lo; i < u.Hi; i++ {
+			n := wrapCounts[int(i)%len(wrapCounts)]
+			j := int(i) / len(wrapCounts)
+			un := d.countUnits[j%len(d.countUnits)]
+			fr := d.countFrames[(j/len(d.countUnits))%len(d.countFrames)]
+			emit(core.Case{In: gen.Scale(fr[0], un, fr[1], n*len(un)), Desc: gen.ScaleDesc(fr[0], un, fr[1], n*len(un))})
 		}
 	case "scale1":
 		n, _ := strconv.Atoi(u.Arg)
